@@ -26,7 +26,8 @@ META = {
         ' Round 7: the .config setters are not gated on .config_text; Config.decompile_to_text writes typed settings only; the word dispatch of _text_to_attributes is evaluated on layout names, directions, boolean settings and non-settings.'
         ' Round 8: a setting sets only itself (_set_str_to_values); parse_tracts() is not gated on parse_complete.'
         ' Round 9: decompile_to_text walks the complete table of settings; no de-duplication in TractParser.parse.'
-        " Round 11: a setting the class keeps is in the table its config setter walks; a keyword of a setting's name is applied after the config; the layout value keeps its case on the way to the layout table; verify_default_ns / _ew use their own member's constants; loop-initialised settings count."),
+        " Round 11: a setting the class keeps is in the table its config setter walks; a keyword of a setting's name is applied after the config; the layout value keeps its case on the way to the layout table; verify_default_ns / _ew use their own member's constants; loop-initialised settings count."
+        " Round 12: the integer test of str_to_value accepts every int the writer emits ('0'); the handed-down config keyword is found by what is handed over."),
     'families': ['TBL', 'LOCK', 'DEADPARAM', 'SIB', 'FORWARD', 'DEADPARAM', 'SIB-DEFAULTS'],
 }
 
@@ -61,6 +62,7 @@ def check(ctx):
     ctx.attempt(common.none_vs_false, [f for f in ctx.repo.funcs.values() if f.module.name.endswith('config.config')])
     ctx.attempt(lockdown, ctx.repo.func('Tract.from_twprgesec'), only=('default_ns', 'default_ew'), source='config')
     ctx.attempt(_layout_value_keeps_its_case)
+    ctx.attempt(_int_values_round_trip)
     ctx.attempt(common.name_tag_purity, [f for f in ctx.repo.funcs.values() if f.module.name.endswith(('config.config', 'config.master_config'))],
                 pairs=(('ns', 'ew'),))
 
@@ -444,8 +446,15 @@ def _lock_plssdesc(ctx):
               detail_bad=f"unknown PLSSParser keywords {sorted(unknown)} (TypeError at parse time)",
               key="LOCK|PLSSDesc.parse|kwargs-exist")
     # handed-down config comes from the live Config object
-    prov = flow.provenance(fi.node, kw['handed_down_config']) if 'handed_down_config' in kw else set()
-    ctx.check('self.config.decompile_to_text' in flow.prov_calls(prov), 'LOCK',
+    # (the keyword is found by what is handed over - the decompiled Config - if it was renamed)
+    hd_kw = 'handed_down_config' if 'handed_down_config' in kw else next(
+        (k for k, v in kw.items() if any('decompile_to_text' in c_ for c_ in flow.prov_calls(flow.provenance(fi.node, v)))), None)
+    if hd_kw is None and 'handed_down_config' not in pp.params():
+        ctx.undecided('LOCK', 'tract settings are handed down as self.config.decompile_to_text()',
+                      'no keyword of PLSSParser receives a decompiled Config; how tract settings travel was not recognised')
+        hd_kw = '__none__'
+    prov = flow.provenance(fi.node, kw[hd_kw]) if hd_kw in kw else set()
+    ctx.check('self.config.decompile_to_text' in flow.prov_calls(prov) or hd_kw == '__none__', 'LOCK',
               'tract settings are handed down as self.config.decompile_to_text()',
               detail_bad="the config handed to subordinate tracts is not decompiled from the current "
                          "Config object (settings given as a Config instance / dict are lost)",
@@ -989,3 +998,42 @@ def _layout_value_keeps_its_case(ctx):
                           key=f"TBL|{fi.qualname}|layout-case-folded", where=common.loc(fi, c))
     if n == 0:
         ctx.undecided('TBL', 'a layout named in config text keeps its case', 'no comparison with _IMPLEMENTED_LAYOUTS found in the config reader')
+
+
+def _int_values_round_trip(ctx):
+    """attrib_and_val_to_str writes an int setting as `name.<int>`; a regex in
+    str_to_value that decides what counts as an int must therefore accept
+    every int the writer can emit - '0' (qq_depth_min.0: do not subdivide) in
+    particular."""
+    from ..fold import RegexVal
+    fi = ctx.repo.func('config.config:str_to_value')
+    n = 0
+    for c in walk_local(fi.node):
+        if not (isinstance(c, ast.Call) and isinstance(c.func, ast.Attribute) and c.func.attr in ('fullmatch', 'match', 'search')):
+            continue
+        recv = c.func.value
+        if isinstance(recv, ast.Name) and recv.id == 're':
+            if not c.args:
+                continue
+            recv = c.args[0]
+        try:
+            rv = common.fold_in_func(ctx, fi, recv)
+        except AnalysisError:
+            continue
+        if isinstance(rv, str):
+            rv = RegexVal(rv, 0)
+        if not isinstance(rv, RegexVal):
+            continue
+        from .. import rx as _rx
+        L = _rx.Lang(rv.pattern, rv.flags)
+        if not (L.fullmatch('12') or L.fullmatch('3')):
+            continue            # not the integer test
+        n += 1
+        missing = [w for w in ('0', '10', '100') if not L.fullmatch(w)]
+        ctx.check(not missing, 'TBL', f"str_to_value: the integer test `{rv.pattern[:30]}` accepts every int the writer emits",
+                  detail_bad=f"`{rv.pattern[:40]}` does not match {missing}: Config.from_dict({{'qq_depth_min': 0}}) decompiles to "
+                             f"'qq_depth_min.0', which the reader now takes for the STRING '0' and rejects (ValueError) - the round trip "
+                             f"through config text breaks for a legal setting", key=f"TBL|str_to_value|int-test|{','.join(missing)}",
+                  where=common.loc(fi, c))
+    if n == 0:
+        ctx.ok('TBL', 'str_to_value decides int-ness by int() itself', 'no regex pre-test')
